@@ -18,6 +18,7 @@ from .c04 import PL3, place
 
 PROPERTY = "C13"
 ENGINE = "E2+E3"
+TECHNIQUE = "bounded-exhaustive definition checks with exact smallest enclosing ball, plus stateless choice-point exploration (iterative deviation bounding) of miniball pivots and of every fault/rotation schedule of the retry loop"
 RULE = (
     "E2: cases = shape (ConvexPolyhedron/Polyhedron over S3 lattice hulls and FAM solids, ConvexPolygon/Polygon over CP2/P2/"
     "rectangles/kites/regular n-gons, all curved shapes) x placement; every ball property is checked against its definition with "
